@@ -1,6 +1,7 @@
 #!/bin/bash
 # tryseed.sh <prop> <patchfile> [more props...] : apply a patch to a scratch copy of /repo and run the quick checks
 P=$1; PATCH=$2; shift 2
+/verif/check list quick >/dev/null || { echo "CHECKER BUILD FAILED"; exit 4; }
 T=$(mktemp -d /tmp/stgseed.XXXX)
 rsync -a --exclude .git --exclude SEED /repo/ $T/repo/
 ( cd $T/repo && patch -p1 --batch -s < $PATCH ) || { echo "PATCH FAILED"; rm -rf $T; exit 3; }
